@@ -85,6 +85,20 @@ pub(crate) fn add_activity(n: usize) {
     ACTIVITY.fetch_add(n as u64, Ordering::SeqCst);
 }
 
+static CONSUME_HOOK: Mutex<Option<fn(usize)>> = Mutex::new(None);
+
+/// Call `f(n)` whenever `n` samples (or one packet) are consumed from any
+/// stream. For harnesses that need consumption to show up in a syscall trace.
+pub fn set_consume_hook(f: Option<fn(usize)>) {
+    *CONSUME_HOOK.lock().unwrap() = f;
+}
+
+pub(crate) fn consumed(n: usize) {
+    if let Some(f) = *CONSUME_HOOK.lock().unwrap() {
+        f(n);
+    }
+}
+
 static VIRTUAL_TIME: AtomicBool = AtomicBool::new(false);
 
 /// With virtual time on, timed waits that can't be satisfied immediately
